@@ -460,6 +460,7 @@ func run(s *core.Shard) {
 	n := s.Pick(1200, 12000) / scale
 	runNames(s, n)
 	runEmptyNetworks(s, n+16)
+	runRefined(s, n+32)
 	for j := 0; j < n; j++ {
 		if !s.Mine(j) {
 			continue
